@@ -281,3 +281,30 @@ Proof.
     apply X. exact (recv_ok_of _ _ _ _ _ _ Hok R G).
   - cbn [recv_obj]. apply X. exact (recv_ok_of sch h mid None _ md Hok eq_refl G).
 Qed.
+
+(* ================================================================== NewField *)
+Lemma newfield_prog_correct : newfield_prog_stmt.
+Proof.
+  intros sch h r f Hwf Hok. destruct r as [|mid p| | | | | | | | | |]; try exact I.
+  unfold run_newf, run_meth, canon_newf, rp_fields. cbn [rm_guard rm_cases step].
+  rewrite rp_assoc_canon, field_of_nth.
+  assert (X : match option_map (canon_newf_body f) (nth_error (fields_of sch mid) f) with
+              | Some b => eval_newf sch (fields_of sch mid) h b
+              | None => Some (h, PPanic)
+              end =
+              Some match nth_error (fields_of sch mid) f with
+                   | Some fd =>
+                     match f_shape fd, f_ty fd with
+                     | Rep _, t => let (h', id) := halloc h (HListVar (Some [])) in (h', PList t (RVar id))
+                     | MapOf kk, t => let (h', id) := halloc h (HMapVar (Some [])) in (h', PMap kk t (RVar id))
+                     | _, TScalar k => (h, PScalar (zero_scalar k))
+                     | _, TMsg m => let (h', id) := halloc h (HObj (new_obj sch m)) in (h', PMsg m (Some id))
+                     end
+                   | None => (h, PPanic)
+                   end).
+  { destruct (nth_error (fields_of sch mid) f) as [fd|] eqn:F; cbn [option_map]; [|reflexivity].
+    unfold canon_newf_body, halloc.
+    destruct (f_shape fd) as [|pk|o|kk] eqn:S; destruct (f_ty fd) as [k|m] eqn:T; cbn [eval_newf]; unfold halloc;
+      rewrite ?F, ?S, ?T, ?ctor_zero_ok_lit, ?zero_lit_val_scalar; reflexivity. }
+  destruct p as [id|]; cbn [xst_of]; exact X.
+Qed.
